@@ -261,8 +261,11 @@ def fam_len1_mixed(r):
     vars_ = [("x", ROUND(r, n), None)]
     pars = [("A", "matrix", dict(value=_matrix(r, n, n))), ("c", "plain", dict(value=ROUND(r, 1)))]
     X = ("var", 0, ("w",))
-    which = str(r.choice(["c*x + A@x", "A@(c*x)", "c*(A@x)", "A@x + c"]))
-    if which == "c*x + A@x":
+    which = str(r.choice(["c*x + A@x", "A@(c*x)", "c*(A@x)", "A@x + c", "d[0]*x + A@x"]))
+    if which == "d[0]*x + A@x":                       # one element of a longer vector parameter is a length-one operand too
+        pars.append(("d", "plain", dict(value=ROUND(r, 3))))
+        e0 = ("sub", ("add", ("mul", ("par", 2, ("i", 0)), X), ("matvec", 0, n, X)), ("num", 1.0))
+    elif which == "c*x + A@x":
         e0 = ("sub", ("add", ("mul", ("par", 1, ("w",)), X), ("matvec", 0, n, X)), ("num", 1.0))
     elif which == "A@(c*x)":
         e0 = ("sub", ("matvec", 0, n, ("mul", ("par", 1, ("w",)), X)), ("num", 1.0))
